@@ -495,6 +495,10 @@ impl Rule {
     //@| ensures r == same_key(*self, *other),
 }
 
+// The lemma library of C11 lives in its own module: Verus gives every module its own solver instance, so these
+// quantifier-heavy proofs are not disturbed by (changes to) the exec functions of the root module.
+pub mod c11 {
+use super::*;
 // rule_cmp is a strict total order on (rank, id) keys, and Equal exactly on equal keys (consistent with Rule::eq)
 pub proof fn lemma_rule_order(a: Rule, b: Rule, c: Rule)
     ensures
@@ -616,6 +620,25 @@ pub proof fn lemma_keys_of_routes(a: Seq<RouteRef>, b: Seq<RouteRef>)
         assert(same_key(hs(a)[i], hs(b)[j]));
     }
 }
+pub proof fn lemma_routes_in_trans(a: Seq<RouteRef>, b: Seq<RouteRef>, c: Seq<RouteRef>)
+    requires routes_in(a, b), routes_in(b, c),
+    ensures routes_in(a, c),
+{
+    assert forall|i: int| 0 <= i < a.len() implies c.contains(#[trigger] a[i]) by {
+        assert(b.contains(a[i]));
+        let k = choose|k: int| 0 <= k < b.len() && b[k] == a[i];
+        assert(c.contains(b[k]));
+    }
+}
+// two routes of a key-distinct sequence with the same key are the same route
+pub proof fn lemma_same_key_same_route(s: Seq<RouteRef>, x: RouteRef, y: RouteRef)
+    requires distinct_keys(s), s.contains(x), s.contains(y), same_key(handler(x), handler(y)),
+    ensures x == y,
+{
+    let i = choose|i: int| 0 <= i < s.len() && s[i] == x;
+    let j = choose|j: int| 0 <= j < s.len() && s[j] == y;
+    assert(same_key(handler(s[i]), handler(s[j])));
+}
 // C11: the sorted order — hence, by the contract of from_routes_rule, the computed action — depends only on the SET of matched
 // rules: any two presentations p, s of the same rule set (unique keys) are applied in the same order.
 pub proof fn c11_order_independent(p: Seq<RouteRef>, s: Seq<RouteRef>, request: &Request)
@@ -627,37 +650,23 @@ pub proof fn c11_order_independent(p: Seq<RouteRef>, s: Seq<RouteRef>, request: 
     let b = sorted_routes(s);
     axiom_sort(p);
     axiom_sort(s);
-    // a and b hold the same routes
-    assert forall|i: int| 0 <= i < a.len() implies b.contains(#[trigger] a[i]) by {
-        assert(p.contains(a[i]));
-        let k = choose|k: int| 0 <= k < p.len() && p[k] == a[i];
-        assert(s.contains(p[k]));
-        let m = choose|m: int| 0 <= m < s.len() && s[m] == p[k];
-        assert(b.contains(s[m]));
-    }
-    assert forall|i: int| 0 <= i < b.len() implies a.contains(#[trigger] b[i]) by {
-        assert(s.contains(b[i]));
-        let k = choose|k: int| 0 <= k < s.len() && s[k] == b[i];
-        assert(p.contains(s[k]));
-        let m = choose|m: int| 0 <= m < p.len() && p[m] == s[k];
-        assert(a.contains(p[m]));
-    }
+    lemma_routes_in_trans(a, p, s);
+    lemma_routes_in_trans(a, s, b);
+    lemma_routes_in_trans(b, s, p);
+    lemma_routes_in_trans(b, p, a);
     lemma_keys_of_routes(a, b);
     lemma_keys_of_routes(b, a);
     lemma_sorted_unique(hs(a), hs(b));
-    assert(a.len() == b.len());
+    assert(a.len() == hs(a).len() && b.len() == hs(b).len());
     assert forall|i: int| 0 <= i < a.len() implies #[trigger] a[i] == b[i] by {
         assert(same_key(hs(a)[i], hs(b)[i]));
+        assert(s.contains(a[i]));
         assert(s.contains(b[i]));
-        assert(p.contains(a[i]));
-        let k = choose|k: int| 0 <= k < p.len() && p[k] == a[i];
-        assert(s.contains(p[k]));
-        let x = choose|x: int| 0 <= x < s.len() && s[x] == a[i];
-        let y = choose|y: int| 0 <= y < s.len() && s[y] == b[i];
-        assert(same_key(handler(s[x]), handler(s[y])));
+        lemma_same_key_same_route(s, a[i], b[i]);
     }
     assert(a =~= b);
 }
+} // mod c11
 
 } // verus!
 fn main() {}
